@@ -96,6 +96,41 @@ CLAIMED.update({
             "Nodes are fakes at the RPC boundary; the fee Action at FSM level is covered by the swapfsm engine.", "TLA+ Timelock spec + TLC case export + real clients over fake nodes + TLC trace validation", "7/C24"),
 })
 
+CLAIMED.update({
+    "C25": ("policy", "model_checking",
+            "Policy.tla (policy file as abstract lines, the operations as the line edits of policy.go, ini parse) is model-checked by TLC for all operation sequences <= 4 (quick) / <= 6 (thorough) from 24 "
+            "pre-existing file classes, with P_C25_Effect / P_C25_Reject / P_C25_Persist as invariants on files the node writes itself and per-step predictions for hand-edited files. Every distinct (state, "
+            "incoming operation, verdict) is exported as a schedule, executed together with VERIF_SEED random schedules on the real policy.Policy on real files, and every recorded step (Get, IsPeerAllowed / "
+            "IsPeerSuspicious / NewSwapsAllowed, fresh CreateFromFile, file bytes) is judged by the same Judge operator in PolicyTrace.",
+            "Bounded: sequence length, 2-3 valid + 9 malformed pubkeys, 24 file classes. No I/O faults or concurrency. Known findings for 'key = value' / quoted entries and section headers in hand-edited files.",
+            "TLA+ state machine of the policy file + TLC schedule export + real policy.Policy + TLC trace validation", "7/C25"),
+    "C27": ("premium", "model_checking",
+            "Premium.tla (persistent map (peer|default, asset, direction) -> rate; resolution peer-specific -> stored global -> built-in; premium = amount*rate/10^6 truncated toward zero, computed symbolically on "
+            "base-1000 limbs) is model-checked by TLC over all operation sequences (set, set global, delete, restart), wide and deep, with resolution / map lemmas and arithmetic lemmas on a rate-amount grid. Every "
+            "distinct (map, incoming operation), the grid, and VERIF_SEED random schedules are executed on the real premium.Setting (bbolt file, reopened for restart) and the real peersync capability path; every "
+            "GetRate, GetDefaultRate, advertised rate and Compute answer is validated against the map by PremiumTrace.",
+            "Amounts <= 21e14 sat and rates within +/-10^6 ppm; advertised rates are checked on the payload handed to the Lightning adapter; the premium inside agreements is checked by engine swapfsm (C12).",
+            "TLA+ persistent-map spec + TLC schedule export + real premium.Setting / peersync + TLC trace validation", "7/C27"),
+    "C28": ("peersync", "model_checking",
+            "PeerSync.tla specifies peer-sync as a state machine (stored capability, status, timestamps, connected and suspicious sets, request-time map, logical clock). TLC checks merge, reload / fixpoint, cleanup, "
+            "rate-limit upper and lower bound and compatibility on every step of all operation sequences (length <= 4 quick, <= 6 thorough). One schedule per distinct state, plus deeper sub-alphabet, extended and seeded "
+            "random schedules, runs on the real PeerSync, Store (bbolt), poller and policy.Policy; PeerSyncTrace evaluates the same properties on every real step and demands step-wise conformance to the design.",
+            "Bounded: 2-3 peers, versions around own, logical time in 5 s units; the Lightning node is simulated and sends never fail; the rate limit is read per connection session and process; legacy records and "
+            "concurrent goroutines are not covered.",
+            "TLA+ state machine + TLC schedule export + real PeerSync/Store/poller + TLC trace validation", "7/C28"),
+})
+
+CLAIMED.update({
+    "C20": ("watcher", "model_checking",
+            "Watcher.tla specifies chain, node view (stale / failing answers) and the registrations of the RPC and Electrum watchers at RPC-answer granularity. TLC checks P_C20a-d (Confirmed / CsvMature only when "
+            "justified by a chain state between the watcher's trigger observation and the callback; Failed once the deadline height is consumed; at most one delivered report) on every interleaving within the budgets "
+            "(quick 0.88M, thorough 27M states). One schedule per coverage key plus VERIF_SEED random schedules is executed on the real BlockchainRpcTxWatcher and the real lwk/electrum watcher over a simulated chain, "
+            "and WatcherTrace.tla replays the chain and judges every callback.",
+            "Exhaustive only within the model's budgets (<= 4 new blocks, <= 2 reorgs of <= 2 blocks, <= 2 faults, scaled window/csv). The RPC watcher's poller/dispatcher are bypassed by a synchronous delivery hook. "
+            "The LND watcher is not covered. Reorgs keep the height.",
+            "TLA+ chain/watcher spec + TLC schedule export + real watchers on a simulated chain + TLC trace validation", "7/C20"),
+})
+
 NOT_YET = {}
 
 
@@ -135,6 +170,10 @@ def main():
             dict(name="tx", path="engines/tx.py", serves_properties=["C01", "C03", "C08"], kind_free_text="TxShape.tla / SpendTx.tla; real validators and transaction builders"),
             dict(name="script", path="engines/script.py", serves_properties=["C02"], kind_free_text="Script.tla interpreter; btcd engine on the real script"),
             dict(name="combo", path="engines/combo.py", serves_properties=["C01", "C04", "C05", "C08"], kind_free_text="joins the FSM-level part with the arithmetic / transaction part"),
+            dict(name="watcher", path="engines/watcher.py", serves_properties=["C20"], kind_free_text="Watcher.tla; real RPC and Electrum watchers on a simulated chain"),
+            dict(name="policy", path="engines/policy.py", serves_properties=["C25"], kind_free_text="Policy.tla; real policy.Policy on files"),
+            dict(name="premium", path="engines/premium.py", serves_properties=["C27"], kind_free_text="Premium.tla; real premium.Setting on bbolt"),
+            dict(name="peersync", path="engines/peersync.py", serves_properties=["C28", "C26"], kind_free_text="PeerSync.tla; real PeerSync/Store/poller"),
             dict(name="swapfsm", path="engines/swapfsm.py", serves_properties=sorted(k for k, v in CLAIMED.items() if v[0] == "swapfsm"),
                  kind_free_text="TLA+ design model of the swap FSMs (PeerSwap.tla) + observer (PeerSwapObs.tla); TLC export; harness/l1; trace validation"),
         ],
